@@ -24,7 +24,7 @@ def log(msg):
     sys.stderr.flush()
 
 
-JTMP = os.path.join(BUILD, "jtmp")
+JTMP = os.path.join(BUILD, "jtmp", str(os.getpid()))   # per process: checks may run side by side
 
 
 def run(cmd, env=None, cwd=None, timeout=None, stdout=None):
